@@ -205,6 +205,13 @@ func (reader *H265Reader) NextNAL() (*NAL, error) {
 		return nil, io.EOF
 	}
 
+	if naluType := NalUnitType((reader.nalBuffer[0] & 0x7E) >> 1); reader.shouldSkipNAL(naluType) {
+		// the last unit of the stream is filtered like any other
+		reader.nalBuffer = nil
+
+		return nil, io.EOF
+	}
+
 	nal := newNal(reader.nalBuffer)
 	reader.nalBuffer = nil
 	nal.parseHeader()
